@@ -328,6 +328,114 @@ def replay_ops(ctx, rp):
     raise ToolError("could not locate the recorded session of this replay file")
 
 
+# ---------------------------------------------------------------------------------------------
+# Cron (C16, C17)
+# ---------------------------------------------------------------------------------------------
+def cron_case_violations(ctx, cases, clause_of):
+    mism = cases + ".mism"
+    s = harness_json(["replay", "--cases", cases, "--out", mism])
+    ctx.evaluations += s["cases"]
+    for smp in s.get("samples", [])[:3]:
+        ctx.sample(smp)
+    for c in read_ndjson(cases):
+        e = c["exp"][0]
+        txt = "".join(c["expr"])
+        shape = "".join("d" if ch.isdigit() else ("a" if ch.isalpha() else ch) for ch in txt)
+        ctx.distinct.add((c["op"], e.get("k"), shape if c["op"] == "cron_parse" else (txt, tuple(c.get("advances", [])))))
+    for m in read_ndjson(mism):
+        c = m["case"]
+        ctx.violations.append({"clause": clause_of(c, m["observed"]), "class": "".join(c["expr"])[:40],
+                               "witness": {"case": c, "observed": m["observed"], "expr_text": "".join(c["expr"])}})
+    return s
+
+
+@check("C16")
+def c16(ctx):
+    build_harness()
+    model_check(ctx, "MC_Cron", "MC_Cron_full" if ctx.thorough else "MC_Cron_quick", workers=8, timeout=3000, heap="6g")
+    cases = gen_cases(ctx, "Gen_Cron", "C16", 8, cfg="Gen_Cron")
+
+    def clause(c, obs):
+        e = c["exp"][0]
+        if e["k"] == "err":
+            return "C16.rejects"
+        if obs.get("k") != "ok":
+            return "C16.accepts"
+        return "C16.denotes"
+    cron_case_violations(ctx, cases, clause)
+    ctx.exhaustive = True
+    return finish(ctx, rule="TLC enumerates, per field (others *): every single item of the documented grammar (every value, every "
+                  "range a-b incl. a>b, every step 1..max+1, names in all 8 casings, name ranges), all 2-item lists of a reduced item "
+                  "set, white-space variants, and ALL single-edit mutations (delete/insert/substitute over 15 characters) of 8 seed "
+                  "expressions; Cron!Recognize classifies each (accepted with denoted sets / rejected / unspecified) and the "
+                  "generator side of the grammar is checked against the recognizer (GRAMMAR = {}). Accepted single-field expressions "
+                  "are observed value by value through the real iterator under the pinned clock; multi-field ones by their first five "
+                  "results. distinct_nontrivial = distinct (classification, character-class shape of the expression) pairs.",
+                  trusted=["verification hook astrolabe::verif::set_cron_now (pins the clock read by next())",
+                           "the membership probe relies on next() returning the following minute when it matches (C17)"])
+
+
+@check("C17")
+def c17(ctx):
+    build_harness()
+    model_check(ctx, "MC_Cron", "MC_Cron_full" if ctx.thorough else "MC_Cron_quick", workers=8, timeout=3000, heap="6g")
+    cases = gen_cases(ctx, "Gen_Cron", "C17", 8, cfg="Gen_Cron")
+    cron_case_violations(ctx, cases, lambda c, o: "C17.history" if o.get("clone") is None else "C17.clone")
+    # channel B: random histories, validated stepwise (the specification carries `last`)
+    from concurrent.futures import ThreadPoolExecutor
+    shards = 16 if ctx.thorough else 8
+    per = 4000 if ctx.thorough else 700
+    traces = [ctx.path("cron-%d.ndjson" % k) for k in range(shards)]
+    seeds = [ctx.seed * 7919 + k for k in range(shards)]
+
+    def rec(k):
+        return harness_json(["record-cron", "--out", traces[k], "--n", per], env_extra={"VERIF_SEED": seeds[k]})
+    with ThreadPoolExecutor(max_workers=8) as ex:
+        list(ex.map(rec, range(shards)))
+    total, bad = parallel_validate(ctx, "Trace_Cron", traces, jobs=10, timeout=3000)
+    ctx.evaluations += total
+    for e in read_ndjson(traces[0])[:9]:
+        ctx.sample(e)
+    for t in traces:
+        for e in read_ndjson(t):
+            if e["ev"] == "new":
+                ctx.distinct.add(("hist", "".join(e["expr"]), tuple(e["start"])))
+    for b in bad:
+        e = b["event"]
+        ctx.violations.append({"clause": "C17.next" if e["ev"] == "next" else "C17.parse", "class": e["ev"],
+                               "witness": {"event": e, "expected": b.get("expected"), "clock": b.get("clock"), "last": b.get("last"),
+                                           "n": per, "seeds": seeds}})
+    return finish(ctx, rule="MC_Cron: every history of (advance clock by d in 7 values, call next) up to depth 3 (5 thorough) over 12 "
+                  "schedules x 8 starts, each step asserting match, strict increase and that no matching minute lies in between; "
+                  "channel A: TLC-generated histories (16 schedules x 12 starts x 8 (108 thorough) advance sequences) replayed on the "
+                  "real iterator under the pinned clock, a clone stepped in lock-step; channel B: random satisfiable schedules from "
+                  "the grammar, random starts 1970..2399 and advances 0 s..400 days, validated by Trace_Cron which carries `last` "
+                  "itself. distinct_nontrivial = distinct (schedule, start[, advances]) histories.",
+                  trusted=["verification hook astrolabe::verif::set_cron_now"])
+
+
+def replay_cron(ctx, rp):
+    w = rp["witness"]
+    build_harness()
+    if "case" in w:
+        cases = ctx.path("case.ndjson")
+        write_ndjson(cases, [w["case"]])
+        cron_case_violations(ctx, cases, lambda c, o: rp.get("clause", "C16"))
+        return
+    for sd in w["seeds"]:
+        t = ctx.path("replay-%d.ndjson" % sd)
+        harness_json(["record-cron", "--out", t, "--n", w["n"]], env_extra={"VERIF_SEED": sd})
+        evs = [e for e in read_ndjson(t) if e.get("i") == w["event"].get("i")]
+        if not evs or any(evs[0].get(k) != w["event"].get(k) for k in ("ev", "d", "expr")):
+            continue
+        n, bad = validate_trace(ctx, "Trace_Cron", t)
+        for b in bad:
+            if b["event"].get("i") == w["event"].get("i"):
+                ctx.violations.append({"clause": "C17.next", "class": "next", "witness": b})
+        return
+    raise ToolError("could not locate the recorded history of this replay file")
+
+
 def replay_civil(ctx, rp):
     w = rp["witness"]
     table = civil_common(ctx)
@@ -358,6 +466,8 @@ def replay_civil(ctx, rp):
 REPLAYERS = {"C01": replay_civil, "C02": replay_civil}
 for _pid in OPS:
     REPLAYERS[_pid] = replay_ops
+REPLAYERS["C16"] = replay_cron
+REPLAYERS["C17"] = replay_cron
 
 
 def main():
